@@ -24,7 +24,7 @@ static struct {
 	int done_threads, total_threads;
 	int perform_count;
 	int body_sleeps;
-	int twice, bodies_ended;   // the same block object is submitted a second time (legal: wait/notify follow the first completion)
+	int twice, bodies_ended, arrived; sim_event both;   // the same block object is submitted a second time (legal: wait/notify follow the first completion)
 } B;
 
 static void body(void) {
@@ -42,6 +42,8 @@ static void body(void) {
 	}
 	if (B.body_sleeps == 1) { sim_point(); sim_point(); }
 	else if (B.body_sleeps == 2) sim_sleep_ns(200 * USEC);
+	// two executions of one object: let them finish together (the completion bookkeeping of both then overlaps)
+	if (B.twice) { if (++B.arrived < 2) sim_event_wait(&B.both, 2 * MSEC); else sim_event_signal(&B.both); }
 	if (!B.body_end) B.body_end = h_stamp();   // completion of the first execution to complete
 	B.bodies_ended++;
 	h_log("body ends");
@@ -201,6 +203,7 @@ static void c19_run(void) {
 	if (B.qos_i) B.b = dispatch_block_create_with_qos_class(fl[B.flags_i], B.qos_i == 1 ? QOS_CLASS_UTILITY : QOS_CLASS_USER_INITIATED, -B.qos_i, ^{ body(); });
 	else B.b = dispatch_block_create(fl[B.flags_i], ^{ body(); });
 	if (!B.b) h_viol("create", "dispatch_block_create returned NULL for valid flags");
+	sim_watch(B.b, 192);   // the block object with its private data (flags, performed count, group, queue)
 	sim_thread *th[16]; int n = 0;
 	th[n++] = sim_spawn(submitter, NULL, "submitter");
 	if (B.cm == CM_RANDOM) th[n++] = sim_spawn(canceller, NULL, "canceller");
